@@ -256,7 +256,13 @@ func (r *Renderer) constOK(t *Type) bool {
 	case "structlit", "ifacelit", "func":
 		return false
 	case "named":
-		return len(t.Args) < 2 // T[A, B]{...} needs an index-list expression, which Wire refuses in values
+		if len(t.Args) >= 2 {
+			return false // T[A, B]{...} needs an index-list expression, which Wire refuses in values
+		}
+		if d := r.S.decl(t.Decl); d.Form == "def" {
+			return r.constOK(d.Under) // written as N(<underlying literal>)
+		}
+		return true
 	case "ptr", "slice", "array", "map", "chan":
 		return r.constOK(t.Elem)
 	}
